@@ -359,7 +359,8 @@ for ch in ("N", "B", "L", "F"):
             desc=f"parse_tag('{ch}<f>:5'): file number symbolic over 0..12, 95..105, 250..262, 995..999 (digit-count and range boundaries), letter case symbolic")
     REG.add(f"parse/{ch}/element+bit/edges", _mk_parse(ch), pre=lambda f, e, b, low: f == 7 and _edge(e) and b in (100, 0, 15, 16, 99) and low == 0, timeout=600, funcs=F[:1], weight=2,
             desc=f"parse_tag('{ch}7:<e>[/b]'): element symbolic over the boundary ranges, bit in (none, 0, 15, 16, 99)", tier="quick" if ch in ("N", "B") else "thorough")
-    REG.add(f"parse/{ch}/file/all", _mk_parse(ch), pre=lambda f, e, b, low: 0 <= f <= 999 and e == 5 and b == 100 and low in (0, 1), timeout=3000, funcs=F[:1], weight=2, tier="thorough",
-            desc=f"file number symbolic over all of 0..999")
-    REG.add(f"parse/{ch}/element/all", _mk_parse(ch), pre=lambda f, e, b, low: f == 7 and 0 <= e <= 999 and b == 100 and low == 0, timeout=3000, funcs=F[:1], weight=2, tier="thorough",
-            desc=f"element symbolic over all of 0..999")
+    for lo in (0, 250, 500, 750):
+        REG.add(f"parse/{ch}/file/all/{lo}-{lo + 249}", _mk_parse(ch), pre=lambda f, e, b, low, lo=lo: lo <= f < lo + 250 and e == 5 and b == 100 and low in (0, 1), timeout=1500, funcs=F[:1],
+                weight=2, tier="thorough", desc=f"file number symbolic over {lo}..{lo + 249} (enumerated), letter case symbolic")
+        REG.add(f"parse/{ch}/element/all/{lo}-{lo + 249}", _mk_parse(ch), pre=lambda f, e, b, low, lo=lo: f == 7 and lo <= e < lo + 250 and b == 100 and low == 0, timeout=1500, funcs=F[:1],
+                weight=2, tier="thorough", desc=f"element symbolic over {lo}..{lo + 249} (enumerated)")
